@@ -72,6 +72,17 @@ def entries():
     # det is marked 'SymPy: supported' and reachable as base.det although it is missing from base.__all__
     add("op/det/2", 4, lambda a: b.det(np.array([[a[0], a[1]], [a[2], a[3]]], dtype=object if _anysym(a) else float)))
     add("op/det/3", 6, lambda a: b.det(np.array([[a[0], a[1], 1], [a[2], a[3], a[4]], [0, a[5], 2]], dtype=object if _anysym(a) else float)))
+    # det of 4x4 arrays that are NOT poses (scaled / added / block-triangular with a corner other than 1)
+    add("op/det(2*trotx)", 2, lambda a: b.det(b.trotx(a[0], t=[a[1], 1.0, 2.0]) * 2))
+    add("op/det(trotx+troty)", 2, lambda a: b.det(b.trotx(a[0]) + b.troty(a[1])))
+    add("op/det(trotz*s)", 2, lambda a: b.det(b.trotz(a[0]) * (a[1] * a[1] + 0.5)))
+    add("op/det(skewa)", 3, lambda a: b.det(b.skewa([a[0], a[1], a[2], 0.5, 1.5, 2.5])))
+    # integer powers of symbolic poses (negative powers need a matrix inverse of an object array and are not supported)
+    add("op/SE3**0", 2, lambda a: ((L.SE3.Rx(a[0]) * L.SE3.Ty(a[1])) ** 0).A)
+    add("op/SE3**1", 2, lambda a: ((L.SE3.Rx(a[0]) * L.SE3.Ty(a[1])) ** 1).A)
+    add("op/SE3**2", 2, lambda a: ((L.SE3.Rx(a[0]) * L.SE3.Ty(a[1])) ** 2).A)
+    add("op/SO3**0", 1, lambda a: (L.SO3.Ry(a[0]) ** 0).A)
+    add("op/SO3**3", 1, lambda a: (L.SO3.Ry(a[0]) ** 3).A)
     add("op/det(rotx)", 1, lambda a: b.det(b.rotx(a[0])))       # sin^2 + cos^2: a composed expression, value only (pose.det() is marked 'not supported')
     # class members
     add("SE3.Rx", 1, lambda a: L.SE3.Rx(a[0]).A)
